@@ -309,7 +309,7 @@ def strat_report(tier):
         "fix": st.sampled_from([None, None, None, 0, 1]),
         "constrain": st.booleans(),
         "asym": st.booleans(),
-        "post": st.sampled_from([None, None, "set", "fix_after"]),
+        "post": st.sampled_from([None, None, "set", "fix_after", "set_fixed", "set_fixed_refit"]),
         "minimizer": st.sampled_from(["iminuit", "iminuit", "scipy"]),
     })
 
@@ -391,13 +391,23 @@ def run_report(case):
         with guard("set_parameter_values"):
             fit.set_parameter_values(**{free[0]: fit.parameter_values[names.index(free[0])] * 1.37 + 0.01})
         labels.add("changed_after_fit")
+    elif case["post"] in ("set_fixed", "set_fixed_refit"):
+        # the value of a *fixed* parameter is changed without fixing it again (a manual scan: set, fit, report)
+        fx = list(fit._fitter.fixed_parameters)
+        if fx:
+            with guard("set_parameter_values"):
+                fit.set_parameter_values(**{fx[0]: fit.parameter_values[names.index(fx[0])] * 1.25 + 0.01})
+            if case["post"] == "set_fixed_refit":
+                with guard("do_fit"):
+                    fit.do_fit()
+            labels.add("fixed_value_changed_after_fixing")
     elif case["post"] == "fix_after":
         free = [nm for nm in names if nm not in fit._fitter.fixed_parameters]
         if len(free) >= 2:
             with guard("fix_parameter"):
                 fit.fix_parameter(free[-1])
             labels.add("fixed_after_fit")
-    asym = bool(case["asym"]) and case["post"] is None
+    asym = bool(case["asym"]) and case["post"] in (None, "set_fixed_refit")
     if asym:
         labels.add("asymmetric")
     with guard("read-results"):
